@@ -90,6 +90,10 @@ def quantified(eng: Engine, e: ast.Call, st: State, is_all: bool):
 def type_test(eng: Engine, st: State, v: V, tname: str, node):
     """isinstance(v, <tname>) decided from the declared/static type (DESIGN §3.6-4); z3 Bool for objects."""
     tname = tname.split(".")[-1]
+    if isinstance(v, VScalar) and v.ty.kind == "opaque":
+        r = eng.registry.globals.get(("isinstance", v.ty.name, tname))
+        if r is not None:
+            return r(eng, st, v) if callable(r) else r
     if tname in ("NoneType",):
         return isinstance(v, VNone)
     if isinstance(v, VOpt):
